@@ -13,7 +13,14 @@ Open Scope string_scope.
 
 (** value constraint of an option: none, or membership in a finite set (JSON
     schema enum/const, validator oneof); values are rendered as text *)
-Inductive constr := CAny | CEnum (vals : list string) | CRange (lo hi : Z).
+Inductive constr :=
+| CAny
+| CEnum (vals : list string)
+| CRange (lo hi : Z)
+| CClass (name : string) (acc rej : list string).
+(** [CClass name acc rej]: a syntactic class of values (a schema `pattern`, a Go type with its own
+    text syntax such as time.Duration); [acc]/[rej] are the members of a fixed sample universe the class
+    accepts/rejects, computed by the translator with the real pattern / the Go grammar *)
 
 (** required: yes / no / conditionally (required_without, oneOf ... : not compared) *)
 Inductive req := RYes | RNo | RCond.
@@ -42,6 +49,7 @@ Definition constr_eqb (a b : constr) : bool :=
   | CAny, CAny => true
   | CEnum x, CEnum y => subset x y && subset y x
   | CRange a b, CRange a' b' => Z.eqb a a' && Z.eqb b b'
+  | CClass n a r, CClass n' a' r' => String.eqb n n' && subset a a' && subset a' a && subset r r' && subset r' r
   | _, _ => false
   end.
 
@@ -145,9 +153,33 @@ Definition fixed_F1b : bool := true.
 Definition disagreements (s l : table) : list row :=
   filter (fun r => negb (row_agrees s l r)) (all_rows s l).
 
+(** C20-F6 at the level of the tables: the schema's duration pattern (one number, one unit)
+    against Go's duration syntax (time.ParseDuration: several units, fractions) *)
+Definition fixed_F6 : bool := false.
+
+Definition guard_F6_row (s l : table) (r : row) : bool :=
+  negb fixed_F6 &&
+  match r with
+  | ROpt k ty n =>
+      match find_mech s k ty, find_mech l k ty with
+      | Some a, Some b =>
+          match find_opt a n, find_opt b n with
+          | Some x, Some y =>
+              match o_constr x, o_constr y with
+              | CClass cs _ _, CClass cl _ _ =>
+                  String.eqb cs "duration_single_unit" && String.eqb cl "go_duration" && req_agree (o_req x) (o_req y)
+              | _, _ => false
+              end
+          | _, _ => false
+          end
+      | _, _ => false
+      end
+  | _ => false
+  end.
+
 (** the finite statement checked over the regenerated tables *)
 Definition tables_ok (fa fb : bool) (s l : table) : bool :=
-  forallb (fun r => guard_F1 fa fb r || row_agrees s l r) (all_rows s l).
+  forallb (fun r => guard_F1 fa fb r || guard_F6_row s l r || row_agrees s l r) (all_rows s l).
 
 (** every recorded row is a row of the tables on which they disagree (no stale guard) *)
 Definition recorded_all_disagree (known : list row) (s l : table) : bool :=
@@ -185,6 +217,7 @@ Definition value_ok (c : constr) (v : string) : bool :=
   | CAny => true
   | CEnum vals => existsb (String.eqb v) vals
   | CRange lo hi => match z_of_text v with Some z => (lo <=? z)%Z && (z <=? hi)%Z | None => false end
+  | CClass _ acc rej => existsb (String.eqb v) acc || negb (existsb (String.eqb v) rej)
   end.
 
 Definition accepts (t : table) (p : probe) : bool :=
@@ -209,6 +242,8 @@ Definition probe_rows (p : probe) : list row :=
   map (fun n => ROpt (p_kind p) (p_type p) n) (p_missing p).
 
 Definition probe_guard (fa fb : bool) (p : probe) : bool := existsb (guard_F1 fa fb) (probe_rows p).
+
+Definition probe_guard_F6 (s l : table) (p : probe) : bool := existsb (guard_F6_row s l) (probe_rows p).
 
 (* short constructors for the generated file *)
 Definition mk_opt n r c := {| o_name := n; o_req := r; o_constr := c |}.
